@@ -18,7 +18,7 @@ from hv.ctxkit import A, Capture, MissingContext, MissingState
 from hv.vloop import VLoop
 from hv.world import Chooser
 
-from haiway import State, ctx  # noqa: E402
+from haiway import MISSING, State, ctx  # noqa: E402
 
 ID = "C11"
 TECHNIQUE = "exhaustive enumeration of generator shape x creation place x consumption place x consumption mode on the real ctx.stream under a hand-stepped loop with owned GC / async-generator finalisation points"
@@ -53,7 +53,7 @@ class StreamMetric(State):
     n: int = 0
 
 
-FEATURES = ["plain", "scope", "record", "spawn", "nested"]
+FEATURES = ["plain", "scope", "record", "spawn", "nested", "missing-item"]
 PLACES = ["same", "other-scope", "outside", "other-task"]
 
 
@@ -68,6 +68,7 @@ def programs(tier: str):
                             if j < k:
                                 modes.append(["break", j + 1])
                                 modes.append(["aclose", j + 1])
+                                modes.append(["cancel", j + 1])
                         for mode in modes:
                             yield {
                                 "k": k,
@@ -159,6 +160,8 @@ def execute(program, ch: Chooser) -> Result:  # noqa: C901, PLR0912, PLR0915
                   async for x in ctx.stream(inner_source):
                       inside.append(["nested-item", x])
                   yield i
+              elif feature == "missing-item" and i == 0:
+                  yield MISSING  # a legitimate item that happens to be the MISSING constant
               else:
                   yield i
               gen_probe(f"after-item{i}")
@@ -190,7 +193,19 @@ def execute(program, ch: Chooser) -> Result:  # noqa: C901, PLR0912, PLR0915
                     got_items.append(await it.__anext__())
                     fp(f"between-{n}")
                     n += 1
-                if mode[0] == "aclose":
+                if mode[0] == "cancel":
+                    # the consumer is cancelled right before it waits for the next item and
+                    # handles the cancellation itself; the stream is abandoned
+                    asyncio.current_task().cancel()
+                    try:
+                        got_items.append(await it.__anext__())
+                        outcome_box["out"] = "not-cancelled"
+                    except asyncio.CancelledError:
+                        asyncio.current_task().uncancel()
+                        outcome_box["out"] = "consumer-cancelled"
+                    except StopAsyncIteration:
+                        outcome_box["out"] = "end-instead-of-cancel"
+                elif mode[0] == "aclose":
                     closer = getattr(it, "aclose", None)
                     if closer is None:
                         outcome_box["out"] = "no-aclose"
@@ -276,12 +291,23 @@ def execute(program, ch: Chooser) -> Result:  # noqa: C901, PLR0912, PLR0915
         if "driver_error" in outcome_box:
             viols.append(viol("a-items", f"driver-error/{placement}", "no error escapes", outcome_box["driver_error"]))
         # (a) items and terminal outcome
-        want_out = {"full": "error" if end == "error" else "end", "unstarted": "dropped-unstarted", "break": "abandoned", "aclose": "closed"}[mode[0]]
+        want_out = {
+            "full": "error" if end == "error" else "end",
+            "unstarted": "dropped-unstarted",
+            "break": "abandoned",
+            "aclose": "closed",
+            "cancel": "consumer-cancelled",
+        }[mode[0]]
+        want_items = [("MISSING" if (feature == "missing-item" and i == 0) else i) for i in range(n_expected)]
+        seen_items = [("MISSING" if x is MISSING else x) for x in got_items]
         if finished and "driver_error" not in outcome_box:
-            if got_items != list(range(n_expected)) or outcome_box.get("out") != want_out:
+            if seen_items != want_items or outcome_box.get("out") != want_out:
                 viols.append(
-                    viol("a-items", placement, [list(range(n_expected)), want_out], [got_items, outcome_box.get("out")])
+                    viol("a-items", f"{feature}/{placement}" if feature == "missing-item" else placement, [want_items, want_out], [seen_items, outcome_box.get("out")])
                 )
+        # an abandoned / cancelled stream is finalised by the fixed GC points at the latest
+        if mode[0] in ("break", "cancel") and finished and len(cleanup) != 1:
+            viols.append(viol("d-closed-means-finalised", f"{mode[0]}/{placement}", "generator finalised once", len(cleanup)))
         if mode[0] == "aclose" and outcome_box.get("out") == "closed" and not outcome_box.get("cleanup_at_close"):
             viols.append(
                 viol("d-closed-means-finalised", placement, "generator finalised when aclose() returns", "generator still suspended")
@@ -323,7 +349,7 @@ def execute(program, ch: Chooser) -> Result:  # noqa: C901, PLR0912, PLR0915
             viols.append(viol("e-loop-clean", f"{mode[0]}/{placement}", "empty", exc_log[:2]))
         nontrivial = place != "same" or not consumed_fully
         outcome = f"{placement}/{mode[0]}/{outcome_box.get('out')}"
-        obs = {"items": got_items, "out": outcome_box.get("out"), "inside": inside[:8], "consumer": consumer_fp[:6], "completions": completions}
+        obs = {"items": seen_items, "out": outcome_box.get("out"), "inside": inside[:8], "consumer": consumer_fp[:6], "completions": completions}
         seen = set()
         uniq = []
         for v in viols:
